@@ -500,3 +500,36 @@ pub fn main(args: &[String]) {
     eprintln!("{}", serde_json::json!({"counts": stats, "generator_hangs": hangs}));
     std::process::exit(0);
 }
+
+
+/// Deterministic boundary parameter tuples per family (degenerate probabilities, infinite freedom, mode at an end,
+/// branch-switch shapes, non-trivial location/scale), always explored by the searches in addition to the seeded ones.
+pub fn corner_tuples(fam: &str) -> Vec<Vec<Arg>> {
+    let f = |v: &[f64]| -> Vec<Arg> { v.iter().map(|x| Arg::F(*x)).collect() };
+    let inf = f64::INFINITY;
+    match fam {
+        "StudentsT" => vec![f(&[0.0, 1.0, inf]), f(&[1.5, 2.0, inf]), f(&[-3.0, 0.5, 1.0]), f(&[2.0, 3.0, 2.0]), f(&[0.0, 1.0, 3.0]), f(&[1.5, 2.0, 1e8]), f(&[1.5, 2.0, 7.0])],
+        "Normal" | "Cauchy" | "Laplace" | "Gumbel" | "LogNormal" => vec![f(&[1.5, 2.0]), f(&[-100.0, 0.01]), f(&[0.0, 1.0])],
+        "Levy" => vec![f(&[1.5, 2.0]), f(&[-100.0, 0.01])],
+        "Bernoulli" | "Geometric" => vec![f(&[1.0]), f(&[0.5]), f(&[0.75])].into_iter().chain(if fam == "Bernoulli" { vec![f(&[0.0])] } else { vec![] }).collect(),
+        "Binomial" => vec![vec![Arg::F(0.0), Arg::I(5)], vec![Arg::F(1.0), Arg::I(5)], vec![Arg::F(0.3), Arg::I(0)], vec![Arg::F(0.3), Arg::I(1)], vec![Arg::F(0.999), Arg::I(156)]],
+        "NegativeBinomial" => vec![f(&[2.5, 1.0]), f(&[1.0, 0.5]), f(&[3.0, 0.25])],
+        "Triangular" => vec![f(&[0.0, 1.0, 0.0]), f(&[0.0, 1.0, 1.0]), f(&[-2.0, 3.0, -2.0]), f(&[-2.0, 3.0, 3.0]), f(&[2.0, 4.0, 3.5]), f(&[-5.0, 8.0, 0.0])],
+        "Beta" => vec![f(&[1.0, 1.0]), f(&[1.0, 3.0]), f(&[3.0, 1.0]), f(&[0.5, 0.5]), f(&[80.0, 80.0]), f(&[81.0, 2.0])],
+        "Gamma" => vec![f(&[1.0, 2.0]), f(&[160.0, 1.0]), f(&[161.0, 1.0]), f(&[0.5, 2.0])],
+        "InverseGamma" => vec![f(&[1.0, 2.0]), f(&[2.0, 1.0]), f(&[3.0, 0.5])],
+        "Erlang" => vec![vec![Arg::I(1), Arg::F(2.0)], vec![Arg::I(160), Arg::F(1.0)]],
+        "Chi" => vec![vec![Arg::I(1)], vec![Arg::I(2)], vec![Arg::I(31)], vec![Arg::I(160)], vec![Arg::I(161)], vec![Arg::I(300)], vec![Arg::I(301)]],
+        "ChiSquared" => vec![f(&[1.0]), f(&[2.0]), f(&[4.0])],
+        "Hypergeometric" => vec![[0, 0, 0], [10, 0, 5], [10, 10, 10], [10, 5, 0], [10, 5, 10], [50, 25, 25], [10, 3, 5]].iter().map(|t| t.iter().map(|x| Arg::I(*x as i128)).collect()).collect(),
+        "DiscreteUniform" => vec![vec![Arg::I(3), Arg::I(3)], vec![Arg::I(-5), Arg::I(5)]],
+        "Uniform" => vec![f(&[0.0, 1.0]), f(&[-100.0, 100.0])],
+        "Weibull" => vec![f(&[1.0, 2.0]), f(&[0.5, 1.0]), f(&[2.0, 3.0])],
+        "Pareto" => vec![f(&[1.0, 1.0]), f(&[2.0, 2.0]), f(&[0.5, 3.0])],
+        "FisherSnedecor" => vec![f(&[2.0, 2.0]), f(&[2.0, 1.0]), f(&[1.0, 2.0]), f(&[2.0, 4.0]), f(&[2.0, 6.0]), f(&[100.0, 100.0])],
+        "Poisson" => vec![f(&[0.5]), f(&[29.5]), f(&[30.5]), f(&[1.0])],
+        "Exp" => vec![f(&[1.0]), f(&[1e-2]), f(&[1e2])],
+        "Dirac" => vec![f(&[0.0]), f(&[-2.5])],
+        _ => vec![],
+    }
+}
